@@ -48,7 +48,40 @@ type OriginResp struct {
 	TrackFetch    bool  // count this answer in the performer's fetch log
 	CountOnly     bool  // …but not as in flight (uncacheable answers are outside the single-flight claim)
 	StallBody     bool  // the body never ends: Read blocks until the body is closed
+	CancelAt      int   // > 0: after this many bytes Read blocks until the request's context is done (the client went away) and returns its error, as http.Transport does
 }
+
+// cancelBody: the first `at` bytes arrive, the rest never does; when the context of the request
+// ends (the server cancels it when the client goes away) Read returns the context's error.
+type cancelBody struct {
+	data    []byte
+	at      int
+	off     int
+	blocked chan struct{} // receives one token when the body has handed out its first part and waits for the client to go away
+	ctx  interface {
+		Done() <-chan struct{}
+		Err() error
+	}
+}
+
+func (c *cancelBody) Read(b []byte) (int, error) {
+	if c.off < c.at {
+		n := copy(b, c.data[c.off:c.at])
+		c.off += n
+		return n, nil
+	}
+	select {
+	case c.blocked <- struct{}{}:
+	default:
+	}
+	select {
+	case <-c.ctx.Done():
+		return 0, c.ctx.Err()
+	case <-time.After(15 * time.Second):
+		return 0, io.ErrUnexpectedEOF
+	}
+}
+func (c *cancelBody) Close() error { return nil }
 
 // stallBody: headers arrive, the body never does.
 type stallBody struct {
@@ -116,6 +149,8 @@ type Performer struct {
 	inFlight    int
 	MaxInFlight int
 	Fetches     int
+	// Blocked receives a token when a CancelAt body has handed out its first part and waits
+	Blocked chan struct{}
 }
 
 type trackedBody struct {
@@ -140,7 +175,9 @@ func (t *trackedBody) Read(b []byte) (int, error) {
 }
 func (t *trackedBody) Close() error { t.finish(); return t.ReadCloser.Close() }
 
-func NewPerformer() *Performer { return &Performer{failed: map[string]int{}, Limit: 300} }
+func NewPerformer() *Performer {
+	return &Performer{failed: map[string]int{}, Limit: 300, Blocked: make(chan struct{}, 4)}
+}
 
 func (p *Performer) Reset(script func(req *http.Request) *OriginResp) {
 	p.mu.Lock()
@@ -218,6 +255,8 @@ func (p *Performer) Do(req *http.Request) (*http.Response, error) {
 	}
 	if req.Method == "HEAD" {
 		resp.Body = http.NoBody
+	} else if r.CancelAt > 0 && r.CancelAt < len(r.Body) {
+		resp.Body = &cancelBody{data: r.Body, at: r.CancelAt, ctx: req.Context(), blocked: p.Blocked}
 	} else if r.StallBody {
 		resp.Body = &stallBody{ch: make(chan struct{})}
 	} else if r.ReadErrAt >= 0 && r.ReadErrAt < len(r.Body) {
@@ -412,6 +451,48 @@ func (w *World) Do(raw []byte, isHead bool) ClientView {
 	}
 	all, _ := ioutil.ReadAll(conn)
 	return ParseResponse(all, isHead)
+}
+
+// DoAbort sends the request, reads until the header block and at least minBody body bytes have
+// arrived (or nothing more comes for 5 s), then closes the connection: a client going away mid-body.
+func (w *World) DoAbort(raw []byte, minBody int) ClientView {
+	for len(w.Perf.Blocked) > 0 {
+		<-w.Perf.Blocked
+	}
+	conn, err := net.DialTimeout("tcp", w.srv.Listener.Addr().String(), 5*time.Second)
+	if err != nil {
+		return ClientView{Framing: "noresponse"}
+	}
+	defer conn.Close()
+	if _, err := conn.Write(raw); err != nil {
+		return ClientView{Framing: "noresponse"}
+	}
+	// the client goes away when the origin's answer has stopped half way (on a cache-enabled rule the
+	// body reaches the client only after the fill, so there may be nothing to read yet), or when it
+	// has read the header block and minBody bytes, or after 5 s
+	got := make(chan struct{}, 1)
+	go func() {
+		var all []byte
+		buf := make([]byte, 4096)
+		conn.SetReadDeadline(time.Now().Add(5 * time.Second))
+		for {
+			if i := bytes.Index(all, []byte("\r\n\r\n")); i >= 0 && minBody > 0 && len(all)-(i+4) >= minBody {
+				break
+			}
+			n, err := conn.Read(buf)
+			all = append(all, buf[:n]...)
+			if err != nil {
+				break
+			}
+		}
+		got <- struct{}{}
+	}()
+	select {
+	case <-w.Perf.Blocked:
+	case <-got:
+	case <-time.After(5 * time.Second):
+	}
+	return ClientView{Framing: "aborted"}
 }
 
 func ParseResponse(all []byte, isHead bool) ClientView {
